@@ -246,6 +246,9 @@ func (w *subWorld) genLocks() []subtypes.LockedBalance {
 			if len(ls) > 0 {
 				ts = ls[0].UnlockTS
 			}
+		case 4, 5:
+			// far future / "never": unlock times at and beyond the int64 boundary
+			ts = []uint64{1 << 63, 1<<63 + 7, 1<<63 - 1, ^uint64(0), ^uint64(0) - 1}[r.Intn(5)]
 		}
 		amt := sdkmath.NewInt(r.Pick(subAmounts))
 		switch r.Intn(50) {
@@ -398,7 +401,7 @@ func (w *subWorld) opAdvance() {
 		var cands []int64
 		for _, ls := range o.locks {
 			for _, l := range ls {
-				if int64(l.UnlockTS) >= w.e.Time {
+				if l.UnlockTS < uint64(w.e.Time)+1_000_000_000 && int64(l.UnlockTS) >= w.e.Time { // (far-future locks are never reached)
 					cands = append(cands, int64(l.UnlockTS)-w.e.Time, int64(l.UnlockTS)-w.e.Time+1)
 				}
 			}
